@@ -7,6 +7,7 @@ import (
 	"io"
 	"net/http"
 	"strings"
+	"sync"
 )
 
 // IdPUser is an identity at the simulated provider.
@@ -24,10 +25,12 @@ type idpGrant struct {
 // IdP is the simulated OAuth2 identity provider, reached through an
 // http.RoundTripper: no sockets.
 type IdP struct {
+	mu     sync.Mutex
 	w      *World
 	codes  map[string]*idpGrant
 	tokens map[string]IdPUser
 	n      int
+	per    map[string]int
 }
 
 func newIdP(w *World) *IdP {
@@ -37,8 +40,13 @@ func newIdP(w *World) *IdP {
 // Grant mints an authorisation code for a user (the user consented at the
 // provider).
 func (p *IdP) Grant(u IdPUser) string {
-	p.n++
-	code := fmt.Sprintf("code-%s-%d", u.Provider, p.n)
+	p.mu.Lock()
+	defer p.mu.Unlock()
+	if p.per == nil {
+		p.per = map[string]int{}
+	}
+	p.per[u.Provider+"/"+u.UID]++
+	code := fmt.Sprintf("code-%s-%s-%d", u.Provider, u.UID, p.per[u.Provider+"/"+u.UID])
 	p.codes[code] = &idpGrant{user: u}
 	return code
 }
@@ -70,6 +78,8 @@ func (p *IdP) RoundTrip(req *http.Request) (*http.Response, error) {
 		}
 		body, _ := io.ReadAll(req.Body)
 		req.Body.Close()
+		p.mu.Lock()
+		defer p.mu.Unlock()
 		vals := parseForm(string(body))
 		provider := strings.Split(strings.Trim(req.URL.Path, "/"), "/")[0]
 		g, ok := p.codes[vals["code"]]
@@ -77,15 +87,18 @@ func (p *IdP) RoundTrip(req *http.Request) (*http.Response, error) {
 			return jsonResp(req, 400, `{"error":"invalid_grant"}`), nil
 		}
 		g.used = true
-		p.n++
-		at := fmt.Sprintf("at-%d", p.n)
+		p.per["at/"+g.user.Provider+"/"+g.user.UID]++
+		k := p.per["at/"+g.user.Provider+"/"+g.user.UID]
+		at := fmt.Sprintf("at-%s-%s-%d", g.user.Provider, g.user.UID, k)
 		p.tokens[at] = g.user
-		return jsonResp(req, 200, fmt.Sprintf(`{"access_token":%q,"token_type":"bearer","expires_in":3600,"refresh_token":"rt-%d"}`, at, p.n)), nil
+		return jsonResp(req, 200, fmt.Sprintf(`{"access_token":%q,"token_type":"bearer","expires_in":3600,"refresh_token":"rt-%s-%d"}`, at, g.user.UID, k)), nil
 	case req.URL.Host == "www.googleapis.com":
 		f := p.w.seam("idp.userinfo", "")
 		if f == faultErr {
 			return nil, errors.New("sim: userinfo unreachable")
 		}
+		p.mu.Lock()
+		defer p.mu.Unlock()
 		at := strings.TrimPrefix(req.Header.Get("Authorization"), "Bearer ")
 		u, ok := p.tokens[at]
 		if !ok {
